@@ -13,7 +13,7 @@ pub open spec fn mc_get<T>(m: MergeConflictCommits<T>, c: MergeConflictCommit) -
 impl<T> std::ops::Index<MergeConflictCommit> for MergeConflictCommits<T> {
     type Output = T;
     //@ fn src/handlers/merge_conflict.rs MergeConflictCommits@Index#1::index
-    //@| ensures *r == mc_get(*self, commit),
+    //@| ensures *r == mc_get(*self, commit),  // @C01:conflict.buffers.are.indexed.by.their.side
 }
 impl<T> vstd::std_specs::core::IndexSpecImpl<MergeConflictCommit> for MergeConflictCommits<T> {
     open spec fn index_req(&self, c: &MergeConflictCommit) -> bool { true }
@@ -21,14 +21,14 @@ impl<T> vstd::std_specs::core::IndexSpecImpl<MergeConflictCommit> for MergeConfl
 impl<T> std::ops::Index<&MergeConflictCommit> for MergeConflictCommits<T> {
     type Output = T;
     //@ fn src/handlers/merge_conflict.rs MergeConflictCommits@Index#2::index
-    //@| ensures *r == mc_get(*self, *commit),
+    //@| ensures *r == mc_get(*self, *commit),  // @C01:conflict.buffers.are.indexed.by.their.side.by.reference
 }
 impl<'c, T> vstd::std_specs::core::IndexSpecImpl<&'c MergeConflictCommit> for MergeConflictCommits<T> {
     open spec fn index_req(&self, c: &&'c MergeConflictCommit) -> bool { true }
 }
 impl<T> std::ops::IndexMut<MergeConflictCommit> for MergeConflictCommits<T> {
     //@ fn src/handlers/merge_conflict.rs MergeConflictCommits@IndexMut::index_mut
-    //@| ensures *r == mc_get(*old(self), commit),
+    //@| ensures *r == mc_get(*old(self), commit),  // @C01:writing.one.side.of.the.conflict.buffers.leaves.the.others
     //@|         match commit {
     //@|             MergeConflictCommit::Ours => final(self).ours == *final(r) && final(self).ancestral == old(self).ancestral && final(self).theirs == old(self).theirs,
     //@|             MergeConflictCommit::Ancestral => final(self).ancestral == *final(r) && final(self).ours == old(self).ours && final(self).theirs == old(self).theirs,
@@ -56,7 +56,7 @@ pub open spec fn mc_painter_rest_same(a: &Painter, b: &Painter) -> bool {
 pub open spec fn mc_empty(m: &MergeConflictLines) -> bool { m.ours@.len() == 0 && m.ancestral@.len() == 0 && m.theirs@.len() == 0 }
 impl MergeConflictCommits<Vec<(String, State)>> {
     //@ fn src/handlers/merge_conflict.rs MergeConflictLines::new
-    //@| ensures mc_empty(&r),
+    //@| ensures mc_empty(&r),  // @C01:new.conflict.buffers.are.empty
     //@ fn src/handlers/merge_conflict.rs MergeConflictLines::clear
     //@| ensures mc_empty(final(self)),  // @C01:conflict.lines.cleared.on.all.three.sides.so.none.is.painted.again
 }
@@ -216,7 +216,7 @@ pub open spec fn mc_stored_side(o: &StateMachine, f: &StateMachine, c: MergeConf
 }
 
 //@ fn src/handlers/merge_conflict.rs parse_merge_marker
-//@| ensures r is Some ==> is_prefix(marker@, line@),
+//@| ensures r is Some ==> is_prefix(marker@, line@),  // @C01,C04:a.conflict.marker.is.recognised.by.its.prefix
 
 impl<'a> StateMachine<'a> {
     //@ fn src/handlers/merge_conflict.rs StateMachine::store_line
